@@ -25,7 +25,7 @@ def record(behs, variants):
         try:
             # MutateCopy is a C03 action (and its known finding changes the provider MDIB without a commit):
             # the histories of C01/C04 consist of transactions only
-            traces.append(ses.run([r for r in beh if r['act'] != 'MutateCopy']))
+            traces.append(ses.run([r for r in beh if r['act'] not in ('MutateCopy', 'EntityDeleteContextState')]))
         finally:
             ses.close()
     return traces
